@@ -366,6 +366,30 @@ Definition api_prune7 : M unit :=
   for_each_set prune_ns7 ss ;;;
   for_each_set prune_if7 is_.
 
+(* ---- prune as extended by proposed_fixes/C08-8: the collection phase also visits the sub-interfaces of the service
+   ports (Interface.interface_list: the children of a DedicatedPort), and a SubInterface is removed WITHOUT the port
+   above it (delete_parent=False), after being disconnected.  Selected when the running library's _prune_interface
+   mentions delete_parent. ---- *)
+Definition prune_if8 (i : N) : M unit :=
+  b <- exists_as CCP i ;;
+  if b then (ifs <- m_get (fun g => disc_list g [i]) ;;
+             for_each_set disconnect_step ifs ;;;
+             dp <- m_get (fun g => negb (N.eqb (type_of g i) T_SubInterface)) ;;
+             remove_cp_and_links i dp)
+  else ret tt.
+
+Definition api_prune8 : M unit :=
+  ns_ <- m_get (fun g => map (fun n => (name_of g n, n)) (filter (marked g) (prune_nodes g))) ;;
+  cs <- m_get (fun g => map (fun cn => (name_of g (fst cn), cn))
+                           (filter (fun cn => marked g (fst cn)) (prune_comps g))) ;;
+  ss <- m_get (fun g => dedup (filter (marked g) (prune_all_nss g))) ;;
+  is_ <- m_get (fun g => dedup (filter (marked g)
+                           (flat_map (with_children g) (flat_map (ns_interfaces g) (prune_all_nss g))))) ;;
+  for_each_set prune_node7 ns_ ;;;
+  for_each_set prune_comp7 cs ;;;
+  for_each_set prune_ns7 ss ;;;
+  for_each_set prune_if8 is_.
+
 (* ------------------------------------------------------------------------------------------ *)
 (* one operation of the interface, and its execution from a snapshot                           *)
 (* ------------------------------------------------------------------------------------------ *)
@@ -383,7 +407,8 @@ Inductive op :=
 | ORemoveInterface (s : N) (iname : N)
 | ORemoveChild (p : N) (iname : N)
 | OPrune
-| OPrune7.
+| OPrune7
+| OPrune8.
 
 (* caches: the _interfaces lists of the handles the operation goes through (0, 1 or 2 of them) *)
 Definition exec (experiment : bool) (o : op) (caches : list (list N)) : M (list (list N)) :=
@@ -404,6 +429,7 @@ Definition exec (experiment : bool) (o : op) (caches : list (list N)) : M (list 
   | ORemoveChild p i => c <- api_remove_child p i c1 ;; ret [c]
   | OPrune => api_prune ;;; ret caches
   | OPrune7 => api_prune7 ;;; ret caches
+  | OPrune8 => api_prune8 ;;; ret caches
   end.
 
 (* ---- correspondence: the recorded implementation observation vs the model's prediction ---- *)
